@@ -682,6 +682,22 @@ def hashmap_into_iter(e, args, fr, m):
 def str_eq(a, b):
     if a.concrete and b.concrete:
         return a.v == b.v
+    if isinstance(a, RankStr) and isinstance(b, RankStr):
+        return True if a is b else z3.simplify(a.rank == b.rank)
+    ka = a.key() if isinstance(a, CatStr) else ((a.v,) if a.concrete else None)
+    kb = b.key() if isinstance(b, CatStr) else ((b.v,) if b.concrete else None)
+    if ka is not None and kb is not None:
+        if ka == kb:
+            return True
+        if all(isinstance(x, str) for x in ka) and not all(isinstance(x, str) for x in kb) or \
+                all(isinstance(x, str) for x in kb) and not all(isinstance(x, str) for x in ka):
+            # a constant against a concatenation with symbolic pieces: decided on the constant prefix when it differs
+            c, d = (ka, kb) if all(isinstance(x, str) for x in ka) else (kb, ka)
+            const = ''.join(c)
+            if isinstance(d[0], str) and not const.startswith(d[0]) and not d[0].startswith(const):
+                return False
+            if sum(len(x) for x in d if isinstance(x, str)) > len(const):
+                return False                # every symbolic piece has length >= 0
     if isinstance(a, CaseStr) and b.concrete:
         return casestr_eq(a, b.v)
     if isinstance(b, CaseStr) and a.concrete:
@@ -700,14 +716,81 @@ def casestr_eq(c, s):
     return z3.simplify(z3.And(*conds)) if conds else True
 
 
+class RankStr(Str):
+    """file name from an ordered family `a b:<rank>.sol` (contains a space and a colon): only identity and order of names are
+    observable by the code under test, both are decided on the integer rank (fast), the text is rendered from the model"""
+    __slots__ = ('rank', 'sym')
+
+    def __init__(self, rank, tag):
+        self.rank = rank
+        self.sym = z3.String('name_' + tag)
+        self.v = self.sym
+
+    @property
+    def concrete(self):
+        return False
+
+    def z(self):
+        return self.sym
+
+    def render(self, model):
+        return 'a b:%04d.sol' % model.eval(self.rank, model_completion=True).as_long()
+
+
+class CatStr(Str):
+    """concatenation kept as a list of pieces (concrete str / symbolic Str objects): reports are compared piece by piece,
+    the Z3 string term is only built when a solver query needs it"""
+    __slots__ = ('parts',)
+
+    def __init__(self, parts):
+        flat = []
+        for p in parts:
+            for q in (p.parts if isinstance(p, CatStr) else [p]):
+                if isinstance(q, Str) and q.concrete and type(q) is Str:
+                    q = q.v
+                if isinstance(q, str):
+                    if q == '':
+                        continue
+                    if flat and isinstance(flat[-1], str):
+                        flat[-1] = flat[-1] + q
+                        continue
+                flat.append(q)
+        self.parts = flat
+        self.v = None
+
+    @property
+    def concrete(self):
+        return False
+
+    def z(self):
+        ps = [z3.StringVal(p) if isinstance(p, str) else p.z() for p in self.parts]
+        return z3.Concat(*ps) if len(ps) > 1 else (ps[0] if ps else z3.StringVal(''))
+
+    def render(self, model):
+        out = []
+        for p in self.parts:
+            if isinstance(p, str):
+                out.append(p)
+            elif hasattr(p, 'render'):
+                out.append(p.render(model))
+            else:
+                out.append(model.eval(p.z(), model_completion=True).as_string())
+        return ''.join(out)
+
+    def key(self):
+        """hashable structural identity: equal keys => equal strings for all values of the symbols"""
+        return tuple(p if isinstance(p, str) else ('sym', p.z().get_id()) for p in self.parts)
+
+
 def concat(a, b):
-    if a.concrete and b.concrete:
+    if a.concrete and b.concrete and type(a) is Str and type(b) is Str:
         return Str(a.v + b.v)
-    if a.concrete and a.v == '':
-        return b
-    if b.concrete and b.v == '':
-        return a
-    return Str(z3.Concat(a.z(), b.z()))
+    r = CatStr([a, b])
+    if len(r.parts) == 1:
+        return Str(r.parts[0]) if isinstance(r.parts[0], str) else r.parts[0]
+    if not r.parts:
+        return Str('')
+    return r
 
 
 @contract(r'^<String as From<&str>>::from$|^<str as ToString>::to_string$|^String::as_str$|^<String as ToString>::to_string$|'
@@ -814,15 +897,20 @@ def str_starts_with_char(e, args, fr, m):
     return z3.simplify(z3.PrefixOf(z3.StringVal(chr(c.v)), s.z()))
 
 
-@contract(r'^<(i32|u32|usize|u8|u16|i64|u64) as ToString>::to_string$')
-def int_to_string(e, args, fr, m):
-    v = e.load(args[0])
+def int_string(v):
+    """decimal rendering of an integer value as a Str (one canonical Z3 term per value: terms are hash-consed)"""
     if v.concrete:
         return Str(str(v.v))
     w, signed = INT_TYPES[v.ty]
     n = z3.BV2Int(v.v, signed)
-    s = Str(z3.If(n < 0, z3.Concat(z3.StringVal('-'), z3.IntToStr(-n)), z3.IntToStr(n)) if signed else z3.IntToStr(n))
-    return s
+    if signed:
+        return Str(z3.If(n < 0, z3.Concat(z3.StringVal('-'), z3.IntToStr(-n)), z3.IntToStr(n)))
+    return Str(z3.IntToStr(n))
+
+
+@contract(r'^<(i32|u32|usize|u8|u16|i64|u64) as ToString>::to_string$')
+def int_to_string(e, args, fr, m):
+    return int_string(e.load(args[0]))
 
 
 @contract(r'^<impl str>::parse::<(i32|u32|u8|u16|usize|u64|i64|u128|i128)>$')
@@ -902,12 +990,7 @@ def display(e, spec):
             return Str(debug_str(v.v))
         return v
     if isinstance(v, Int):
-        if v.concrete:
-            return Str(str(v.v))
-        w, signed = INT_TYPES[v.ty]
-        n = z3.BV2Int(v.v, signed)
-        return Str(z3.IntToStr(n)) if not signed else Str(
-            z3.If(n < 0, z3.Concat(z3.StringVal('-'), z3.IntToStr(-n)), z3.IntToStr(n)))
+        return int_string(v)
     if isinstance(v, Adt) and not v.fields and v.variant:
         return Str(v.variant)
     raise Unsupported('formatting of %r' % (v,))
@@ -1316,3 +1399,135 @@ def vec_index_mut(e, args, fr, m):
     if not isinstance(r, Ref):
         raise Unsupported('index_mut on a vector without a place')
     return Ref(r.frame, r.local, r.projs + (('vecindex', i.v),))
+
+
+# ------------------------------------------------------------------------------------------------ fs::write (effect log)
+@contract(r'^(?:fs::)?write::<.*>$')
+def fs_write(e, args, fr, m):
+    e.extra.setdefault('writes', []).append((e.load(args[0]), e.load(args[1])))
+    return ok(UNIT)
+
+
+def _tuple_lt(e, a, b):
+    """(String, BTreeSet<i32>) ordering: name first (byte order = code point order for UTF-8), then the line sets"""
+    na, nb = e.load(a.fields[0]), e.load(b.fields[0])
+    if na.concrete and nb.concrete:
+        if na.v != nb.v:
+            return na.v.encode() < nb.v.encode()
+    elif isinstance(na, RankStr) and isinstance(nb, RankStr):
+        if e.branch(z3.simplify(na.rank < nb.rank)):
+            return True
+        if not e.branch(z3.simplify(na.rank == nb.rank)):
+            return False
+    else:
+        if e.branch(z3.simplify(na.z() < nb.z())):
+            return True
+        if not e.branch(z3.simplify(na.z() == nb.z())):
+            return False
+    la, lb = e.load(a.fields[1]).items, e.load(b.fields[1]).items
+    for x, y in zip(la, lb):
+        if e.branch(e.binop('Lt', x, y)):
+            return True
+        if not e.branch(e.binop('Eq', x, y)):
+            return False
+    return len(la) < len(lb)
+
+
+@contract(r'^<impl \[\(String, BTreeSet<i32>\)\]>::sort$')
+def sort_findings(e, args, fr, m):
+    """contract of slice::sort: a sorted permutation (stable); comparisons decided by the solver where symbolic"""
+    v = e.load(args[0])
+    out = []
+    for x in v.items:
+        x = e.force(x)
+        pos = len(out)
+        for j, y in enumerate(out):
+            if _tuple_lt(e, x, y):
+                pos = j
+                break
+        out.insert(pos, x)
+    e.store(args[0], VecV(out))
+    return UNIT
+
+
+# ------------------------------------------------------------------------------------------------ more Vec / iterator adaptors
+@contract(r'^Vec::<.*>::dedup$')
+def vec_dedup(e, args, fr, m):
+    """removes consecutive repeated elements (PartialEq); equality of symbolic elements is decided by the solver"""
+    v = e.load(args[0])
+    out = []
+    for x in v.items:
+        if out and e.branch(deep_eq(e, out[-1], x)):
+            continue
+        out.append(x)
+    e.store(args[0], VecV(out))
+    return UNIT
+
+
+@contract(r'^HashMap::<.*>::values$')
+def hashmap_values(e, args, fr, m):
+    mp = e.load(args[0])
+    return IterV([ValRef(v) for _, v in mp.pairs], 0, 'perm' if e.flags.get('symbolic_order') else 'val')
+
+
+@contract(r'^HashMap::<.*>::keys$')
+def hashmap_keys(e, args, fr, m):
+    mp = e.load(args[0])
+    return IterV([ValRef(k) for k, _ in mp.pairs], 0, 'perm' if e.flags.get('symbolic_order') else 'val')
+
+
+@contract(r'^<.* as Iterator>::flatten$')
+def iter_flatten(e, args, fr, m):
+    it = e.force(args[0])
+    out = []
+    for x in _iter_items(e, it):
+        out += ref_items(e, x)
+    return IterV(out, 0, 'val')
+
+
+@contract(r'^<.* as Iterator>::sum::<(usize|u32|u64|i32)>$')
+def iter_sum(e, args, fr, m):
+    it = e.force(args[0])
+    ty = m.group(1)
+    if not isinstance(it, IterV):
+        raise Unsupported('sum on %r' % (it,))
+    items = it.items[it.pos:]
+    total = Int(0, ty)
+    for x in items:
+        v = call_closure(e, fr, it.extra, [x]) if it.kind == 'map' else e.load(x)
+        total = e.binop('Add', total, e.force(v))
+    return total
+
+
+@contract(r'^<impl \[.*\]>::sort_by::<.*>$')
+def slice_sort_by(e, args, fr, m):
+    """stable sort by a comparator closure returning Ordering (insertion sort; comparisons are executed from MIR)"""
+    v = e.load(args[0])
+    out = []
+    for x in v.items:
+        pos = len(out)
+        for j, y in enumerate(out):
+            o = e.force(call_closure(e, fr, args[1], [ValRef(x), ValRef(y)]))
+            if o.variant == 'Less':
+                pos = j
+                break
+        out.insert(pos, x)
+    e.store(args[0], VecV(out))
+    return UNIT
+
+
+@contract(r'^<String as Ord>::cmp$|^<str as Ord>::cmp$|^<impl str>::cmp$')
+def string_cmp(e, args, fr, m):
+    a, b = e.load(args[0]), e.load(args[1])
+    if a.concrete and b.concrete:
+        x, y = a.v.encode(), b.v.encode()
+        return Adt('Ordering', 'Less' if x < y else 'Equal' if x == y else 'Greater')
+    if isinstance(a, RankStr) and isinstance(b, RankStr):
+        if e.branch(z3.simplify(a.rank < b.rank)):
+            return Adt('Ordering', 'Less')
+        return Adt('Ordering', 'Equal' if e.branch(z3.simplify(a.rank == b.rank)) else 'Greater')
+    if e.branch(z3.simplify(a.z() < b.z())):
+        return Adt('Ordering', 'Less')
+    if e.branch(z3.simplify(a.z() == b.z())):
+        return Adt('Ordering', 'Equal')
+    return Adt('Ordering', 'Greater')
